@@ -201,6 +201,51 @@ def denoted(out, ctx, front, rnd, work):
     return checked
 
 
+def directive_orders(out, ctx, front, rnd, work):
+    """(e) directives in any order: the same rules with their directives permuted (the relative order of the
+    @check directives kept, it is their calling order) must give byte-identical generated code"""
+    n = 30 if ctx.tier == "quick" else 300
+    compared = 0
+    for i in range(n):
+        gg = gen.make(ctx.seed * 17 + 12, i, gen.Opts(p_hooks=0.9, p_ctx=0.0, p_memo=0.4, p_position=0.5, p_noskip=0.5))
+        base = gg.text()
+        codes = []
+        texts = [base]
+        saved = [list(r.dirs) for r in gg.rules]
+        for k in range(3):
+            for r, d0 in zip(gg.rules, saved):
+                checks = [d for d in d0 if d.startswith("@check")]
+                others = [d for d in d0 if not d.startswith("@check")]
+                rr = random.Random(rnd.random())
+                rr.shuffle(others)
+                # interleave: positions of the checks chosen at random, their order kept
+                slots = sorted(rr.sample(range(len(d0)), len(checks))) if checks else []
+                merged, ci, oi = [], 0, 0
+                for pos in range(len(d0)):
+                    if ci < len(checks) and pos == slots[ci]:
+                        merged.append(checks[ci]); ci += 1
+                    else:
+                        merged.append(others[oi]); oi += 1
+                r.dirs = merged
+            texts.append(gg.text())
+        for r, d0 in zip(gg.rules, saved):
+            r.dirs = d0
+        for k, t in enumerate(texts):
+            path = os.path.join(work, "dir%d_%d.ebnf" % (i, k))
+            open(path, "w", encoding="utf-8").write(t)
+            o = subprocess.run([front, "gen", path], stdout=subprocess.PIPE, stderr=subprocess.PIPE, text=True, timeout=60).stdout
+            codes.append(o)
+        compared += len(texts) - 1
+        for k in range(1, len(texts)):
+            if codes[k] != codes[0]:
+                out.violation("c12dirs:%d" % i, "the same rules with their directives written in another order compile to different code",
+                              {"text": texts[0], "reordered": texts[k],
+                               "first_difference": next((j for j, (a, b) in enumerate(zip(codes[0], codes[k])) if a != b), -1),
+                               "replay": "vp-front gen <file> on both texts"})
+                break
+    return compared
+
+
 def check(out, ctx):
     front = os.path.join(ctx.bin, "front")
     rnd = random.Random(ctx.seed * 977 + 12)
@@ -278,7 +323,9 @@ def check(out, ctx):
             if got != first:
                 out.violation("c12layout:" + label, "the same grammar under another layout reads differently (%s vs %s)" % (lst[0][0], label), {})
     den = denoted(out, ctx, front, rnd, work)
+    dirs = directive_orders(out, ctx, front, rnd, work)
     out.coverage.update({
+        "directive_order_variants_compared": dirs,
         "literals_and_ranges_checked_in_generated_code": den,
         "evaluations": len(texts), "distinct_nontrivial": len(nontrivial),
         "rule": "generated grammars (all operators, directives in random order, @char/@extern rules, both quote styles, every escape form chosen at random per character) each printed plainly and under 2 random layouts (spaces/newlines/tabs/comments between tokens, redundant parentheses), plus the repository's own grammar files; non-trivial = a fancy-layout text; distinct by text",
